@@ -8,92 +8,8 @@
 #include <set>
 #include <stdexcept>
 
-using vf::Errs;
-using vf::str;
+#include "common.hpp"
 
-typedef std::pair<int, bool> OE;       // (value, flag)
-typedef std::pair<double, double> CE;  // (real, imag)
-
-static xtl::xoptional<int> mkopt(int v, bool f) { return xtl::xoptional<int>(int(v), bool(f)); }
-
-static std::string show(const std::vector<OE>& m)
-{
-    std::string s = "[";
-    for (auto& e : m) s += str(e.first) + (e.second ? "" : "?") + " ";
-    return s + "]";
-}
-static std::string show(const std::vector<CE>& m)
-{
-    std::string s = "[";
-    for (auto& e : m) s += str(e.first) + "+" + str(e.second) + "i ";
-    return s + "]";
-}
-
-// ---------------------------------------------------------------------------------------------------------------------
-// optional containers
-// ---------------------------------------------------------------------------------------------------------------------
-template <class C>
-bool opt_lengths(const C& c, std::size_t n, Errs& e)
-{
-    if (c.size() != n || c.value().size() != n || c.has_value().size() != n)
-    {
-        e.add("length-mismatch", "size()=" + str(c.size()) + " value().size()=" + str(c.value().size()) + " has_value().size()=" + str(c.has_value().size()) + " model size " + str(n));
-        return false;
-    }
-    if (c.empty() != (n == 0)) e.add("empty", "empty() wrong");
-    return true;
-}
-
-template <class C>
-void opt_elements(const C& cc, const std::vector<OE>& m, Errs& e, bool iterators)
-{
-    C& c = const_cast<C&>(cc);
-    const std::size_t n = m.size();
-    for (std::size_t i = 0; i < n; ++i)
-    {
-        auto bad = [&](const char* path, int v, bool f) {
-            e.add("element", std::string(path) + " element " + str(i) + " reads (" + str(v) + "," + str(f) + "), model (" + str(m[i].first) + "," + str(m[i].second) + ") in " + show(m));
-        };
-        if (cc.value()[i] != m[i].first || bool(cc.has_value()[i]) != m[i].second) { bad("storages", cc.value()[i], bool(cc.has_value()[i])); return; }
-        { auto r = cc[i]; if (r.value() != m[i].first || bool(r.has_value()) != m[i].second) { bad("const operator[]", r.value(), bool(r.has_value())); return; } }
-        { auto r = c[i]; if (r.value() != m[i].first || bool(r.has_value()) != m[i].second) { bad("operator[]", r.value(), bool(r.has_value())); return; } }
-        { auto r = cc.at(i); if (r.value() != m[i].first || bool(r.has_value()) != m[i].second) { bad("const at()", r.value(), bool(r.has_value())); return; } }
-        { auto r = c.at(i); if (r.value() != m[i].first || bool(r.has_value()) != m[i].second) { bad("at()", r.value(), bool(r.has_value())); return; } }
-    }
-    if (n > 0)
-    {
-        auto f = cc.front(); auto b = cc.back(); auto f2 = c.front(); auto b2 = c.back();
-        if (f.value() != m.front().first || bool(f.has_value()) != m.front().second || f2.value() != m.front().first || bool(f2.has_value()) != m.front().second) e.add("front", "front() does not read element 0 of " + show(m));
-        if (b.value() != m.back().first || bool(b.has_value()) != m.back().second || b2.value() != m.back().first || bool(b2.has_value()) != m.back().second) e.add("back", "back() does not read the last element of " + show(m));
-    }
-    for (std::size_t i = n; i <= n + 9; ++i)
-    {
-        bool t1 = false, t2 = false;
-        try { (void)cc.at(i); } catch (const std::out_of_range&) { t1 = true; }
-        try { (void)c.at(i); } catch (const std::out_of_range&) { t2 = true; }
-        if (!t1 || !t2) { e.add("at-no-throw", "at(" + str(i) + ") did not throw std::out_of_range with size " + str(n)); break; }
-    }
-    (void)iterators;
-}
-
-template <class C>
-void opt_iterate(const C& cc, const std::vector<OE>& m, Errs& e)
-{
-    C& c = const_cast<C&>(cc);
-    std::vector<OE> f, cf, mf, r, cr, mr;
-    const std::size_t lim = m.size() + 3;   // never walk further than that: a broken end() must not run away
-    std::size_t k = 0;
-    for (auto it = cc.begin(); it != cc.end() && k < lim; ++it, ++k) f.push_back(OE((*it).value(), bool((*it).has_value())));
-    k = 0; for (auto it = cc.cbegin(); it != cc.cend() && k < lim; ++it, ++k) cf.push_back(OE((*it).value(), bool((*it).has_value())));
-    k = 0; for (auto it = c.begin(); it != c.end() && k < lim; ++it, ++k) mf.push_back(OE(it->value(), bool(it->has_value())));
-    k = 0; for (auto it = cc.rbegin(); it != cc.rend() && k < lim; ++it, ++k) r.push_back(OE((*it).value(), bool((*it).has_value())));
-    k = 0; for (auto it = cc.crbegin(); it != cc.crend() && k < lim; ++it, ++k) cr.push_back(OE((*it).value(), bool((*it).has_value())));
-    k = 0; for (auto it = c.rbegin(); it != c.rend() && k < lim; ++it, ++k) mr.push_back(OE((*it).value(), bool((*it).has_value())));
-    std::vector<OE> rm(m.rbegin(), m.rend());
-    if (f != m || cf != m || mf != m) e.add("iteration", "forward iteration reads " + show(f) + " model " + show(m));
-    if (r != rm || cr != rm || mr != rm) e.add("reverse-iteration", "reverse iteration reads " + show(r) + " model reversed " + show(rm));
-    if (std::size_t(cc.end() - cc.begin()) != m.size()) e.add("iteration", "end()-begin() != size()");
-}
 
 template <class B>
 struct OVW
@@ -294,50 +210,6 @@ static void build_oa(vf::Explorer<OAW>& ex)
 // ---------------------------------------------------------------------------------------------------------------------
 // complex containers
 // ---------------------------------------------------------------------------------------------------------------------
-// Whole-element assignment proxy = xcomplex<double>(re, im) is ill-formed on the pinned tree (the converting operator= reads
-// private members of another instantiation). check.py probes it: with CX_PROXY_ASSIGN the real assignment is used, otherwise
-// both parts are written through the proxy's real()/imag() references.
-#if CX_PROXY_ASSIGN
-#define CXSET(proxy, re, im) do { auto&& p_ = (proxy); p_ = xtl::xcomplex<double>(double(re), double(im)); } while (0)
-#else
-#define CXSET(proxy, re, im) do { auto&& p_ = (proxy); p_.real() = double(re); p_.imag() = double(im); } while (0)
-#endif
-template <class C>
-bool cx_lengths(const C& c, std::size_t n, Errs& e)
-{
-    if (c.size() != n || c.real().size() != n || c.imag().size() != n)
-    {
-        e.add("length-mismatch", "size()=" + str(c.size()) + " real().size()=" + str(c.real().size()) + " imag().size()=" + str(c.imag().size()) + " model size " + str(n));
-        return false;
-    }
-    return true;
-}
-template <class C>
-void cx_elements(const C& cc, const std::vector<CE>& m, Errs& e)
-{
-    C& c = const_cast<C&>(cc);
-    for (std::size_t i = 0; i < m.size(); ++i)
-    {
-        bool ok = cc.real()[i] == m[i].first && cc.imag()[i] == m[i].second;
-        { auto r = cc[i]; ok = ok && r.real() == m[i].first && r.imag() == m[i].second; }
-        { auto r = c[i]; ok = ok && r.real() == m[i].first && r.imag() == m[i].second; }
-        { auto r = cc.at(i); ok = ok && r.real() == m[i].first && r.imag() == m[i].second; }
-        { auto r = c.at(i); ok = ok && r.real() == m[i].first && r.imag() == m[i].second; }
-        if (!ok) { e.add("element", "element " + str(i) + " does not read (" + str(m[i].first) + "," + str(m[i].second) + ") through every access path; model " + show(m)); return; }
-    }
-    if (!m.empty())
-    {
-        auto f = cc.front(); auto b = cc.back();
-        if (f.real() != m.front().first || f.imag() != m.front().second) e.add("front", "front() wrong");
-        if (b.real() != m.back().first || b.imag() != m.back().second) e.add("back", "back() wrong");
-    }
-    for (std::size_t i = m.size(); i <= m.size() + 3; ++i)
-    {
-        bool t = false;
-        try { (void)cc.at(i); } catch (const std::out_of_range&) { t = true; }
-        if (!t) { e.add("at-no-throw", "at(" + str(i) + ") did not throw with size " + str(m.size())); break; }
-    }
-}
 
 struct CVW
 {
@@ -577,7 +449,7 @@ int main(int argc, char** argv)
         else if (a == "--deadline") deadline = atof(argv[++i]);
         else if (a == "--replay") { replay = true; inst = argv[++i]; trace = argv[++i]; }
     }
-    // inst: ov-u64-S<n> | ov-u8-S<n> | ov-u8-B9 (boundary indices, crossing a flag block) | oa | cv-S<n> | ca
+    // inst: ov-u64-S<n> | ov-u8-S<n> | ov-u8-B9 / ov-u64-B65 (boundary indices, crossing a flag block) | oa | cv-S<n> | ca
     auto sizes_upto = [](std::size_t S) { std::vector<std::size_t> v; for (std::size_t s = 0; s <= S; ++s) v.push_back(s); return v; };
     if (inst.compare(0, 8, "ov-u64-S") == 0)
     {
@@ -598,6 +470,13 @@ int main(int argc, char** argv)
         vf::Explorer<OVW<uint8_t>> ex;
         build_ov<uint8_t>(ex, 9, {0, 1, 7, 8, 9}, {0, 7, 8});
         drive<vf::Explorer<OVW<uint8_t>>, OVW<uint8_t>>(ex, inst, depth, max_states, deadline, replay, trace);
+    }
+    else if (inst == "ov-u64-B65")
+    {
+        // the same boundary construction for the default flag container: sizes and indices around the first 64-bit block
+        vf::Explorer<OVW<std::size_t>> ex;
+        build_ov<std::size_t>(ex, 65, {0, 1, 63, 64, 65}, {0, 63, 64});
+        drive<vf::Explorer<OVW<std::size_t>>, OVW<std::size_t>>(ex, inst, depth, max_states, deadline, replay, trace);
     }
     else if (inst == "oa")
     {
